@@ -312,13 +312,18 @@ static int remoteSync(MPT_INTERFACE(output) *out, int timeout)
 		}
 		if ((ans = mpt_command_get(&od->con._wait, ansid))) {
 			MPT_STRUCT(message) msg;
+			int (*rcmd)(void *, void *) = ans->cmd;
+			void *rarg = ans->arg;
 			
 			msg.base = data + idlen;
-			msg.used = buf->_used - idlen;
+			msg.used = buf->_used - smax - idlen;
 			msg.cont = 0;
 			msg.clen = 0;
 			
-			if (ans->cmd(ans->arg, &msg) < 0) {
+			/* command is finished with its first answer: release it before the call
+			 * (it may register new requests) */
+			ans->cmd = 0;
+			if (rcmd(rarg, &msg) < 0) {
 				return 0;
 			}
 			continue;
